@@ -124,11 +124,9 @@ class Anchors:
             elif f["output"].get("name") == "bool" and not f.get("container") and "get_ptrs" in names and "insert" in names:
                 role = "dup_set"
             if role:
+                # informational only (reports name the helper a finding sits in): no rule depends on these roles any more
                 self.role[f["path"]] = role
-                if role in self.by_role:
-                    self.notes.append("two functions play the role %s: %s and %s" % (role, self.by_role[role], f["path"]))
-                else:
-                    self.by_role[role] = f["path"]
+                self.by_role.setdefault(role, f["path"])
 
     # ---- helpers used by the rules -------------------------------------------------------------------------------
     def role_of(self, path):
